@@ -236,7 +236,9 @@ class C06Monitor(hist.Monitor):
         for p in raw["nodes"]:
             seen.setdefault(p.split("/", 1)[1].lower(), []).append(p)
         for u, ps in seen.items():
-            eng.rec.check("C06.dup-file", len(ps) == 1, op="close", cls="/".join(sorted(x.split("/")[0] for x in ps)), attr="", detail=f"uid {u} stored as {ps}")
+            # a node that a removal through the parent left in the flat container (C02 known finding) shadows a later re-use of its uid
+            stale = "stale-node-of-parent-removal" if any(q in eng.parent_removed for q in ps) else ""
+            eng.rec.check("C06.dup-file", len(ps) == 1, op="close", cls="/".join(sorted(x.split("/")[0] for x in ps)), attr=stale, detail=f"uid {u} stored as {ps}")
 
 
 def run_case(case, rec):
